@@ -82,6 +82,7 @@ class World:
         self.next_id = 1
         self.loader = Ctx(self, loader=True)
         self.intrinsics = {}
+        self.classes = []
         self.contract_hook = None
         from . import intrinsics
         intrinsics.install(self)
@@ -99,6 +100,13 @@ class World:
     def load_module(self, modname):
         if modname in self.modules:
             return self.modules[modname]
+        # like CPython: importing a.b.c first imports the packages a and a.b
+        if "." in modname:
+            parent = modname.rsplit(".", 1)[0]
+            if parent not in self.modules and self.module_path(parent):
+                self.load_module(parent)
+                if modname in self.modules:
+                    return self.modules[modname]
         path = self.module_path(modname)
         if path is None:
             raise Unsupported(f"module {modname} not found")
@@ -158,7 +166,7 @@ class Frame:
 class Ctx:
     """execution context of one path"""
 
-    MAX_STEPS = 400000
+    MAX_STEPS = 20000000
 
     def __init__(self, world, loader=False, prefix=None, work=None):
         self.world = world
@@ -333,7 +341,9 @@ class Ctx:
 
     # ---- exceptions -------------------------------------------------------------------------
     def raise_exc(self, tname, args=()):
-        raise PyRaise(HExc(tname, tuple(args), getattr(_builtins, tname, Exception)))
+        e = HExc(tname, tuple(args), getattr(_builtins, tname, Exception))
+        e.where = getattr(self, "where", None)
+        raise PyRaise(e)
 
     # ---- statements -------------------------------------------------------------------------
     def tick(self):
@@ -347,6 +357,7 @@ class Ctx:
 
     def exec_stmt(self, s, fr):
         self.tick()
+        self.where = f"{fr.module.name}:{getattr(s, 'lineno', '?')}"
         m = getattr(self, "st_" + type(s).__name__, None)
         if m is None:
             raise Unsupported("statement " + type(s).__name__)
@@ -461,6 +472,10 @@ class Ctx:
                     for k, v in mv.globals.items():
                         if not k.startswith("_"):
                             fr.locals[k] = v
+                    # submodules already imported are attributes of the package, hence part of `*`
+                    for mn, sub in list(self.world.modules.items()):
+                        if mn.startswith(modname + ".") and "." not in mn[len(modname) + 1:] and not mn.rsplit(".", 1)[1].startswith("_"):
+                            fr.locals.setdefault(mn.rsplit(".", 1)[1], sub)
                 else:
                     if a.name not in mv.globals:
                         raise Unsupported(f"cannot import {a.name} from {modname} (circular import?)")
@@ -549,13 +564,15 @@ class Ctx:
                             cfr.locals[t.id] = v
                     else:
                         raise Unsupported("class body assignment target")
-            elif isinstance(st, ast.Expr) and isinstance(st.value, ast.Constant):
-                pass
+            elif isinstance(st, ast.Expr):
+                if not isinstance(st.value, ast.Constant):
+                    self.eval(st.value, cfr)
             elif isinstance(st, ast.Pass):
                 pass
             else:
                 raise Unsupported("class body statement " + type(st).__name__)
         fr.locals[s.name] = cv
+        self.world.classes.append(cv)
 
     def eval_dc_default(self, node, cfr, cv, name):
         # dataclasses.field(default=..., default_factory=...)
@@ -819,7 +836,10 @@ class Ctx:
         if isinstance(val, Sym):
             if val.k == "str" and not spec or spec == "s":
                 return val
-            raise Unsupported("formatting a symbolic number")
+            # the text of a symbolic number is an opaque symbolic string (display only)
+            self.assumed.add("format(number): uninterpreted function from numbers to strings")
+            f = smt.uf("fmt_" + val.k + "_" + (spec or "").replace(".", "_"), ops.elem_sort(val.k) if val.k != "real" else z3.RealSort(), ops.STR)
+            return Sym(f(val.t), "str")
         if isinstance(val, Ref):
             c = self.cell(val)
             if isinstance(c, HObj):
@@ -835,7 +855,7 @@ class Ctx:
         if isinstance(v, Sym):
             if v.k == "str":
                 return v
-            raise Unsupported("str() of symbolic number")
+            return self.format_value(v, None)
         if isinstance(v, Ref):
             c = self.cell(v)
             if isinstance(c, HObj):
